@@ -175,6 +175,28 @@ func c07DeadlineAs(c *Ctx, rule string) {
 			}
 		})
 	}
+	// the same store made by a helper the callbacks call (a quorum-update helper that also stamps the stage)
+	for ev, fn := range m.Callbacks {
+		if ev == evSigningInit {
+			continue
+		}
+		for _, g := range c.moduleClosure(fn) {
+			if g == fn {
+				continue
+			}
+			ssax.Instrs(g, func(in ssa.Instruction) {
+				st, ok := in.(*ssa.Store)
+				if !ok {
+					return
+				}
+				if fa, isFA := st.Addr.(*ssa.FieldAddr); isFA {
+					if fv := ssax.FieldOf(fa); fv != nil && fv.Name() == "UpdatedAt" && ssax.OwnerName(fa) == "SigningConfirmation" {
+						live = true
+					}
+				}
+			})
+		}
+	}
 	if !live {
 		r.OKd(rule, "signing_proposal_fsm:deadline", "the signing deadline cannot cancel a batch of a round whose key generation is old", "", "no callback advances SigningProposalPayload.UpdatedAt: IsExpired() compares the init-time ExpiresAt with the zero time and is inert")
 		return
